@@ -2,9 +2,10 @@
 
 
 class Prop:
-    def __init__(self, functions=(), lemmas=(), bounded=(), standins=None, level='proof', explanation='',
+    def __init__(self, functions=(), lemmas=(), bounded=(), standins=None, level='proof', explanation='', thorough_functions=(),
                  assumptions=(), trusted_base=(), technique='contract-based deductive verification (own VC generator + z3)'):
         self.functions = list(functions)
+        self.thorough_functions = list(thorough_functions)   # additionally verified in the thorough tier
         self.lemmas = list(lemmas)
         self.bounded = list(bounded)
         self.standins = standins or {}
@@ -115,6 +116,7 @@ ENFORCE = ['policy:Enforcer.enforce', 'policy:Enforcer.authorize']
 
 PROPS['C03'] = Prop(
     functions=['policy:Rules.__missing__', '_checks:RuleCheck.__call__'],
+    thorough_functions=['policy:Enforcer.enforce'],
     bounded=[('bounded.enforce', 'c03')],
     level='other',
     technique='contract-based deductive verification of the rule-store lookup (own VC generator + z3); the enforce() branch structure is a labelled bounded stand-in until its contract is discharged within budget',
@@ -164,6 +166,7 @@ PROPS['C07'] = Prop(
 
 PROPS['C08'] = Prop(
     functions=ENFORCE_SIDE,
+    thorough_functions=['policy:Enforcer.enforce'],
     bounded=[('bounded.enforce', 'c08')],
     level='other',
     technique='contract-based deductive verification of the scope gate (own VC generator + z3) + complete enumeration of the finite table through enforce()',
@@ -178,6 +181,7 @@ PROPS['C14'] = Prop(
     functions=['_checks:RoleCheck.__call__', '_checks:GenericCheck.__call__', '_checks:GenericCheck._find_in_dict',
                '_checks:RuleCheck.__call__', '_checks:NotCheck.__call__', '_checks:AndCheck.__call__',
                '_checks:OrCheck.__call__', '_checks:_check', 'policy:Rules.__missing__'],
+    thorough_functions=['policy:Enforcer.enforce', 'policy:Enforcer.authorize'],
     bounded=[('bounded.enforce', 'c14')],
     level='other',
     technique='contract-based deductive verification: exception freedom is an obligation on every path of every evaluation function (own VC generator + z3); enforce() itself is covered by a bounded stand-in',
